@@ -12,7 +12,7 @@ use core::result::Result;
 use crate::writer_::Indentation;
 use crate::se_::{XmlName, SeError, is_xml_name};
 use crate::seesc_::{QuoteLevel, QuoteTarget};
-use crate::sec_::{Write, Serialize, ContentSerializer, ElementSerializer, Struct, Map, Tuple, Indent, WriteResult, TEXT_KEY, errmsg_, errstr_, BSeq, tag_empty, ind_ok};
+use crate::sec_::{Write, Serialize, ContentSerializer, ElementSerializer, Struct, Map, Tuple, SimpleSeq, Indent, WriteResult, TEXT_KEY, errmsg_, errstr_, BSeq, tag_empty, ind_ok};
 pub mod ser { pub use crate::sec_::{Serializer, Serialize}; }
 use crate::sec_::Serializer as _;
 
@@ -239,6 +239,97 @@ impl<'w, 'r, W: Write> ser::Serializer for Serializer<'w, 'r, W> {
         ensures r matches Ok(m) ==> self.root_tag matches Some(k) && m.ser.ser.key == k && m.key is None
     {
         self.ser("map")?.serialize_map(len)
+    }
+//@end
+}
+// the tuple / struct-variant forms of the root serializer (associated types the model trait does not carry: inherent)
+impl<'w, 'r, W: Write> Serializer<'w, 'r, W> {
+//@extract se::Serializer::serialize_tuple | src/se/mod.rs :: impl<'w, 'r, W: Write> ser::Serializer for Serializer<'w, 'r, W> :: fn serialize_tuple | serves=C13 features=serialize
+//@rewrite Result<Self::SerializeTuple, Self::Error> ==> Result<ElementSerializer<'w, 'r, W>, SeError>
+    pub fn serialize_tuple(self, len: usize) -> (r: Result<ElementSerializer<'w, 'r, W>, SeError>)
+        requires self.ok()
+        // every element of a top-level tuple is an element named by the root tag -- an error without one
+        ensures r matches Ok(q) ==> Some(q.key) == self.root_tag && q.ser == self.ser
+    {
+        self.ser("unnamed tuple")?.serialize_tuple(len)
+    }
+//@end
+//@extract se::Serializer::serialize_tuple_struct | src/se/mod.rs :: impl<'w, 'r, W: Write> ser::Serializer for Serializer<'w, 'r, W> :: fn serialize_tuple_struct | serves=C13 features=serialize
+//@rewrite Result<Self::SerializeTupleStruct, Self::Error> ==> Result<ElementSerializer<'w, 'r, W>, SeError>
+    pub fn serialize_tuple_struct(
+        self,
+        name: &'static str,
+        len: usize,
+    ) -> (r: Result<ElementSerializer<'w, 'r, W>, SeError>)
+        requires self.ok()
+        // ... named by the root tag or else the type name, only if that is a legal XML name
+        ensures r matches Ok(q) ==> q.ser == self.ser && (self.root_tag is Some || is_xml_name(name@))
+            && (match self.root_tag { Some(k) => q.key == k, None => q.key.0@ == name@ })
+    {
+        self.ser_name(name)?.serialize_tuple_struct(name, len)
+    }
+//@end
+//@extract se::Serializer::serialize_tuple_variant | src/se/mod.rs :: impl<'w, 'r, W: Write> ser::Serializer for Serializer<'w, 'r, W> :: fn serialize_tuple_variant | serves=C13 features=serialize
+//@rewrite Result<Self::SerializeTupleVariant, Self::Error> ==> Result<Tuple<'w, 'r, W>, SeError>
+//@rewrite .map(Tuple::Text) ==> .map(|q__: SimpleSeq<&'w mut W>| Tuple::Text(q__))
+//@rewrite .map(Tuple::Element) ==> .map(|q__: ElementSerializer<'w, 'r, W>| Tuple::Element(q__))
+    pub fn serialize_tuple_variant(
+        self,
+        name: &'static str,
+        _variant_index: u32,
+        variant: &'static str,
+        len: usize,
+    ) -> (r: Result<Tuple<'w, 'r, W>, SeError>)
+        requires self.ok()
+        ensures
+            // C13: a tuple variant at the top level: elements named by the variant -- only if that is a legal XML name --, or, for
+            // `$text`, an xs:list written with the Text escaping rules and the level in force
+            r matches Ok(Tuple::Element(e)) ==> variant@ != "$text"@ && is_xml_name(variant@) && e.key.0@ == variant@ && e.ser == self.ser,
+            r matches Ok(Tuple::Text(q)) ==> variant@ == "$text"@ && q.target is Text && q.level == self.ser.level && q.is_empty
+                && (*q.writer).out() == (*old(self.ser.writer)).out() && *final(q.writer) == *final(self.ser.writer),
+    {
+        if variant == TEXT_KEY {
+            self.ser
+                .into_simple_type_serializer()?
+                .serialize_tuple_struct(name, len)
+                .map(|q__: SimpleSeq<&'w mut W>| -> (o: Tuple<'w, 'r, W>) ensures o == Tuple::Text(q__) { Tuple::Text(q__) })
+        } else {
+            let ser = ElementSerializer {
+                ser: self.ser,
+                key: XmlName::try_from(variant)?,
+            };
+            ser.serialize_tuple_struct(name, len).map(|q__: ElementSerializer<'w, 'r, W>| -> (o: Tuple<'w, 'r, W>) ensures o == Tuple::Element(q__) { Tuple::Element(q__) })
+        }
+    }
+//@end
+//@extract se::Serializer::serialize_struct_variant | src/se/mod.rs :: impl<'w, 'r, W: Write> ser::Serializer for Serializer<'w, 'r, W> :: fn serialize_struct_variant | serves=C13 features=serialize n15=1
+//@rewrite Result<Self::SerializeStructVariant, Self::Error> ==> Result<Struct<'w, 'r, W>, SeError>
+    pub fn serialize_struct_variant(
+        self,
+        name: &'static str,
+        _variant_index: u32,
+        variant: &'static str,
+        len: usize,
+    ) -> (r: Result<Struct<'w, 'r, W>, SeError>)
+        requires self.ok()
+        ensures
+            // C13: a struct variant at the top level is the document element named by the variant -- only if that is a legal XML name
+            r matches Ok(st) ==> variant@ != "$text"@ && is_xml_name(variant@) && st.ser.key.0@ == variant@
+                && st.children@.len() == 0 && st.write_indent
+                && (*st.ser.ser.writer).out() == (*old(self.ser.writer)).out() + self.ser.pre() + seq![0x3cu8] + variant.spec_bytes()
+                && *final(st.ser.ser.writer) == *final(self.ser.writer),
+    {
+        if variant == TEXT_KEY {
+            Err(SeError::Unsupported(
+                errmsg_(),
+            ))
+        } else {
+            let ser = ElementSerializer {
+                ser: self.ser,
+                key: XmlName::try_from(variant)?,
+            };
+            ser.serialize_struct(name, len)
+        }
     }
 //@end
 }
